@@ -71,6 +71,8 @@ type UDPBackend struct {
 }
 
 type TCPBackend struct {
+	// conn is used by the message loop (Send) and by whoever removes the backend (Close)
+	sync.Mutex
 	localAddr             string
 	backendAddr           string
 	conn                  net.Conn
@@ -193,6 +195,9 @@ func (t *TCPBackend) Send(msg *Message) error {
 		return err
 	}
 
+	t.Lock()
+	defer t.Unlock()
+
 	zap.L().Info("send message to TCP backend with conn", zap.String("backendAddr", t.backendAddr), zap.Any("conn", t.conn))
 
 	for i := 0; i < 2; i++ {
@@ -235,6 +240,9 @@ func (t *TCPBackend) GetAddress() string {
 }
 
 func (t *TCPBackend) Close() {
+	t.Lock()
+	defer t.Unlock()
+
 	if t.conn != nil {
 		t.conn.Close()
 	}
